@@ -270,8 +270,8 @@ theorem inv_notifyOne {h : List CvEv} {g : CvG} (I : CvInv h g) {t : Nat} {c : C
     · injection hn with h1 h2
       subst h2
       cases hq2 : q.2 with
-      | waiting => right; exact ⟨_, rfl, by simp [signalStatus]⟩
-      | signal e0 => right; exact ⟨_, rfl, by simp [signalStatus]⟩
+      | waiting => right; exact ⟨_, rfl, by simp⟩
+      | signal e0 => right; exact ⟨_, rfl, by simp⟩
       | broadcast b0 => left; exact ⟨b0, rfl⟩
     · rcases I.pending q hq n ep hn (fun t' hm => hun t' (List.mem_cons_of_mem _ hm)) with ⟨b, hb⟩ | ⟨e0, he0, hm⟩
       · left; exact ⟨b, by simp only [hb]; rfl⟩
